@@ -17,7 +17,7 @@
 //!   {"op":"pool","pre":P,"puts":[C..],"pad":Q}
 //!        P interfaces (2P pool entries in front of everything the method needs), then one `ldc` per
 //!        constant C (facts form); the input pool is padded with Q fillers.
-//!   {"op":"write","id":ID,"variant":"plain"|"renamed"|"lvt"}
+//!   {"op":"write","id":ID,"variant":"plain"|"renamed"|"lvt"|"linepc"}
 //!        corpus / sample class by id (`cfkit::duke_diff::inputs()` naming), generated families `gen/...`.
 //! got
 //!   {"skipped":true,"why":..} | {"res":"err","msg":..} |
@@ -720,12 +720,38 @@ fn exec_write(v: &Value) -> Result<Value> {
 		}
 		None => inputs().get(id).with_context(|| format!("unknown class id {id}"))?,
 	};
+	// variant "linepc": the class with the start_pc of one line number moved into an instruction (JVMS 4.7.12 asks only for
+	// an index into the code array; duke's reader takes it): the tree then holds a label no instruction carries
+	let patched;
+	let bytes: &[u8] = if variant == "linepc" {
+		let spans = match parse_class(bytes) { Ok(p) => p.spans, Err(_) => return Ok(json!({"skipped": true, "why": "reference parse"})) };
+		let mut found = None;
+		for sp in spans.iter().filter(|sp| sp.role == "lnt_start_pc" && sp.len == 2) {
+			let mut b = bytes.to_vec();
+			let pc = u16::from_be_bytes([b[sp.off], b[sp.off + 1]]);
+			let [x, y] = (pc + 1).to_be_bytes();
+			b[sp.off] = x; b[sp.off + 1] = y;
+			// inside an instruction: the strict independent parser refuses the position, duke reads the class
+			if parse_class(&b).is_err() && std::panic::catch_unwind(|| read(&b).is_ok()).unwrap_or(false) { found = Some(b); break; }
+		}
+		match found { Some(b) => { patched = b; &patched }, None => return Ok(json!({"skipped": true, "why": "no line number in front of an instruction of more than one byte"})) }
+	} else { bytes };
 	let mut tree = match read(bytes) {
 		Ok(t) => t,
 		Err(e) => return Ok(json!({"skipped": true, "why": format!("duke cannot read it: {e:#}").chars().take(200).collect::<String>()})),
 	};
 	match variant {
 		"plain" => {}
+		"linepc" => {
+			// fails cleanly, or writes a well-formed file: the full observation only if something was written that parses
+			let mut out: Vec<u8> = Vec::new();
+			if let Err(e) = duke::write_class(&mut out, &tree) {
+				return Ok(json!({"res": "err", "msg": format!("{e:#}").chars().take(300).collect::<String>()}));
+			}
+			if let Err(e) = parse_class(&out) {
+				return Ok(json!({"res": "ok", "parse": "err", "msg": e.to_string(), "size": out.len()}));
+			}
+		}
 		"renamed" => tree = dukebox::remap::remap_class(&Prefix, tree).context("remap")?,
 		"lvt" => {
 			let facts = match reference {
@@ -926,6 +952,7 @@ pub fn gen(seed: u64, n: usize) -> Result<Vec<Value>> {
 	for (k, id) in corpus.iter().enumerate() {
 		if k % stride == off {
 			out.push(json!({"op": "write", "id": id, "variant": "plain"}));
+			if k % (stride * 4) == off { out.push(json!({"op": "write", "id": id, "variant": "linepc"})); }
 			if k % (stride * 6) == off {
 				out.push(json!({"op": "write", "id": id, "variant": "renamed"}));
 			}
